@@ -167,7 +167,7 @@ def c07(tier):
 def c13(tier):
     if tier == "quick":
         return [dict(model="elem", configs=cfgs(["heap8d", "heap3n"], (R,))), dict(model="iter", configs=cfgs(["heap8d", "heap3n"], (R,))),
-                dict(model="swap", configs=cfgs(["heap8d", "heap3n", "heap160"], (R,))), rnd(tier, ["heap12d"])]
+                dict(model="swap", configs=cfgs(["heap8d", "heap3n", "heap12d", "heap160"], (R,))), rnd(tier, ["heap12d"])]
     return [dict(model="elem", configs=cfgs(["heap8d", "heap3n", "heap160", "heap0d"], (R, D))), dict(model="iter", configs=cfgs(["heap8d", "heap3n", "heap160"], (R, D))),
             dict(model="swap", configs=cfgs(["heap8d", "heap3n", "heap160", "heap12d", "stack24x3"], (R, D)))]
 
@@ -214,9 +214,9 @@ def c18(tier):
 
 def c08(tier):
     if tier == "quick":
-        return [dict(model="clone", configs=cfgs(["heap8c", "fence24d", "heap3c", "heap0c", "fenceover3c"], (R,))), dict(model="clonefixed", configs=cfgs(["stackn3", "stack8c"], (R,))),
+        return [dict(model="clone", configs=cfgs(["heap8c", "fence24d", "heap3c", "heap0c", "fenceover3c", "fenceraw8c"], (R,))), dict(model="clonefixed", configs=cfgs(["stackn3", "stack8c"], (R,))),
                 rnd(tier, ["heap8c", "stack8c"])]
-    return [rnd(tier, ["heap8c", "heap3c", "stack8c", "fence24d", "fenceover3c"], nvecs=3), dict(model="clone", configs=cfgs(["heap8c", "heap3c", "heap0c", "heap8css", "heap160", "fence24d"], (R, D))),
+    return [rnd(tier, ["heap8c", "heap3c", "stack8c", "fence24d", "fenceover3c"], nvecs=3), dict(model="clone", configs=cfgs(["heap8c", "heap3c", "heap0c", "heap8css", "heap160", "fence24d", "fenceraw8c"], (R, D))),
             dict(model="clonefixed", configs=cfgs(["stackn3", "stack8c"], (R, D)))]
 def c09(tier):
     if tier == "quick":
@@ -225,9 +225,9 @@ def c09(tier):
 
 def c17(tier):
     if tier == "quick":
-        return [dict(model="raw", configs=cfgs(["heap8d", "heap8c", "heap0d"], (R,))), dict(model="rawempty", configs=cfgs(["empty8d", "empty0c"], (R,))),
+        return [dict(model="raw", configs=cfgs(["heap8d", "heap8c", "heap0d", "fenceraw8c"], (R,))), dict(model="rawempty", configs=cfgs(["empty8d", "empty0c"], (R,))),
                 rnd(tier, ["heap8c"])]
-    return [dict(model="raw", configs=cfgs(["heap8d", "heap8c", "heap8css", "heap0d", "heap0c", "heap3n", "heap160"], (R, D))),
+    return [dict(model="raw", configs=cfgs(["heap8d", "heap8c", "heap8css", "heap0d", "heap0c", "heap3n", "heap160", "fenceraw8c"], (R, D))),
             dict(model="rawempty", configs=cfgs(["empty8d", "empty0c"], (R, D)))]
 def c04(tier):
     if tier == "quick":
@@ -247,8 +247,10 @@ def c19(tier):
     NA = False
     if tier == "quick":
         return [dict(model="fixed", configs=[("stack8x3p", R, NA)]), dict(model="elem", configs=[("stack24x3", R, NA)]),
-                dict(model="clonefixed", configs=[("stack8c", R, NA), ("stackn3", R, NA)])]
+                dict(model="clonefixed", configs=[("stack8c", R, NA), ("stackn3", R, NA)]),
+                dict(model="place", shards=1, configs=[("stack32x4", R, NA), ("stack64x2", R, NA), ("stackn3", R, NA)])]
     return [dict(model="fixed", configs=[("stack8x3p", R, NA), ("stackn3", R, NA), ("stack24x3", D, NA)]),
+            dict(model="place", shards=1, configs=[("stack16x4", R, NA), ("stack32x4", R, NA), ("stack64x2", R, NA), ("stackn3", R, NA), ("stack64x2", D, NA)]),
             dict(model="elem", configs=[("stack24x3", R, NA), ("stackn3", D, NA)]), dict(model="range", configs=[("stack24x3", R, NA)]),
             dict(model="clonefixed", configs=[("stack8c", R, NA), ("stackn3", R, NA), ("stack8c", D, NA)]),
             dict(model="cap", configs=[("fence8d", R, NA)]), dict(model="shift", configs=[("fence24d", R, NA)])]
@@ -315,17 +317,19 @@ PLAN = {
                       "copying and dropping run no callbacks, that each consumption clones the ROOT source exactly once into the destination, "
                       "and that the source is unchanged.",
                 rule="cases = all transitions of the lazy model; non-trivial = a lazy action at depth >= 2 (n = 0 consumptions are the silent-create/drop cases)"),
-    "C10": dict(campaigns=c10, level="model_checking",
+    "C10": dict(campaigns=c10, extra=probes.run_c10_extra, level="model_checking",
                 claim="Every (len, capacity) state of one vector up to the bound x every reserve / reserve_exact / shrink_to_fit / shrink_to / "
                       "with_capacity request 0..bound and at usize::MAX-2..usize::MAX (erased and typed), interleaved with push/pop/clear, is "
                       "replayed on Heap and on the instrumented relocating backend; TLC judges len<=capacity, the >= promises, exactness of "
                       "heap shrinking, panics for unrepresentable requests, and that a satisfied request touches neither capacity, block nor allocator.",
                 rule="cases = all transitions of the capacity model; non-trivial = a capacity call at depth >= 2"),
-    "C11": dict(campaigns=c11, level="model_checking",
+    "C11": dict(campaigns=c11, extra=probes.run_c11_extra, level="model_checking",
                 claim="Fixed-capacity model (capacity 3 / 2): every element-wise, drain and splice transition whose result length is below, at and one "
                       "above the capacity, replayed on Stack<SIZE> and StackN<N,SIZE>; TLC judges the capacity formula, behaviour identical to the "
                       "contract used for the heap, panic-and-unchanged for push/insert beyond capacity, validity after splice beyond it, and zero "
-                      "allocator events (instrumented global allocator) during every call.",
+                      "allocator events (instrumented global allocator) during every call. The capacity formula of Stack<SIZE> and the build rule "
+                      "of StackN<N,SIZE> (construction panics exactly when N elements do not fit) are judged by StackGrid.tla on a grid of SIZE and N "
+                      "around multiples of the element size (54 instantiations, element sizes 0, 3, 8, 24).",
                 rule="cases = all transitions of the fixed-capacity and elem models on stack backends; non-trivial = any operation at depth >= 2"),
     "C05": dict(campaigns=c05, level="model_checking",
                 claim="All transitions of the element-wise, range, layout-sweep and capacity models replayed on a user-defined backend that relocates on "
